@@ -387,6 +387,9 @@ def thetas(n):
     return st.lists(one, min_size=n, max_size=n).map(lambda l: np.array(l, dtype=float))
 
 
+_TH_FORM = st.sampled_from(["flat", "flat", "col", "list"])
+
+
 @st.composite
 def chain_cases(draw):
     if draw(st.integers(0, 3)) == 0:
@@ -399,7 +402,7 @@ def chain_cases(draw):
             q = np.array([draw(st.integers(-3, 3)) for _ in range(3)])
             cols.append(np.concatenate([w, np.cross(q, w)]))
         S = np.ascontiguousarray(np.stack(cols, axis=1).astype(np.int64))
-        return {"S": S, "theta": draw(thetas(n))}
+        return {"S": S, "theta": draw(thetas(n)), "th_form": draw(_TH_FORM)}
     S = draw(G.chains(1, 7))
     th = draw(thetas(S.shape[1]))
     for i in range(S.shape[1]):
@@ -410,7 +413,7 @@ def chain_cases(draw):
                 th[i] = draw(G.floats(-10.0, 10.0))
         elif draw(st.integers(0, 7)) == 0:
             th[i] = draw(G.floats(-4 * PI, 4 * PI))
-    return {"S": S, "theta": th}
+    return {"S": S, "theta": th, "th_form": draw(_TH_FORM)}
 
 
 @st.composite
@@ -870,11 +873,15 @@ def c_chain_jacobian(case, ctx):
     if any(not np.any(S[:3, i]) and abs(th[i]) > 2 * PI for i in range(n - 1)):
         ctx.label("a slide (not the last joint) displaced by more than 2 pi")
     ctx.nontrivial(n >= 2 and any(x >= 1e-6 for x in angs))
+    tform = case.get("th_form", "flat")
+    tharg = (np.array(th, dtype=float).reshape(n, 1) if tform == "col" else [float(x) for x in th] if tform == "list"
+             else np.array(th, dtype=float))
+    ctx.label("theta as " + tform)
     if np.issubdtype(S.dtype, np.integer):
         ctx.label("integer-typed screw list")
-        J = np.asarray(sut(fsr.chainJacobian, S.copy(), np.array(th, dtype=float)), dtype=float)
+        J = np.asarray(sut(fsr.chainJacobian, S.copy(), tharg), dtype=float)
     else:
-        J = np.asarray(sut(fsr.chainJacobian, np.ascontiguousarray(S, dtype=float), np.array(th, dtype=float)), dtype=float)
+        J = np.asarray(sut(fsr.chainJacobian, np.ascontiguousarray(S, dtype=float), tharg), dtype=float)
     S = np.asarray(S, dtype=float)
     want = O.jac_space(S, th)
     scale = max(1.0, float(np.abs(want).max()))
